@@ -10,8 +10,8 @@
    The complement ("known bad") is explicit: [safe] (operator instances, Model/C01Safe.v) and [pos_ok] / [clean]
    (a None value tested for truth below a `not`); every disjunct has a refutation in Findings/C01.v / Findings/C02.v. *)
 Require Import PonyV.Base.PyBase PonyV.Model.C01Expr PonyV.Model.C01Sql PonyV.Model.C01Translate PonyV.Model.C01Safe
-               PonyV.Model.C01Eqb PonyV.Model.C01Query PonyV.Model.C01Like PonyV.Model.C01LikeEqb PonyV.Model.C01Join PonyV.Model.C01Coll
-               PonyV.Proofs.C01Ref PonyV.Proofs.C01Sound PonyV.Proofs.C01Rows PonyV.Proofs.C01Like PonyV.Proofs.C01Join PonyV.Proofs.C01Coll.
+               PonyV.Model.C01Eqb PonyV.Model.C01Query PonyV.Model.C01Like PonyV.Model.C01LikeEqb PonyV.Model.C01Join PonyV.Model.C01Coll PonyV.Model.C01Aggr
+               PonyV.Proofs.C01Ref PonyV.Proofs.C01Sound PonyV.Proofs.C01Rows PonyV.Proofs.C01Like PonyV.Proofs.C01Join PonyV.Proofs.C01Coll PonyV.Proofs.C01Aggr.
 
 (* WHERE keeps exactly the rows the Python condition keeps *)
 Theorem C01_filter_except_known : forall d, modelled d = true ->
@@ -189,6 +189,43 @@ Example C01_collection_nonvacuous :
   | Some xs, Some q => sql_coll_rows DSqlite (fun _ => PNone) db false xs q = [IntV 1]
   | _, _ => False
   end /\ py_coll_rows (fun _ => PNone) db false atoms proj = [PInt 1].
+Proof. vm_compute. repeat split; reflexivity. Qed.
+
+(* ---------------------------------------------------------------------------------------------------------------
+   An aggregate as the whole result, without GROUP BY (Model/C01Aggr.v): select(count() | count(p) | count(e) | sum(e) |
+   sum(distinct(e)) | min(e) | max(e) | avg(e) | avg(distinct(e)) for p in P [if c]).  [sql_aggr] is the SQL aggregate over the
+   rows the WHERE keeps (NULLs skipped, DISTINCT, SUM wrapped in coalesce(.., 0) by the builder, COUNT(DISTINCT ..)),
+   [py_aggr] Pony's documented aggregate over the comprehension (None skipped, sum of nothing 0, min / max / avg of nothing None,
+   count(e) = number of different non-None values; the average as the exact quotient), [deca_g] the converter of the result type.
+   Domain: every row in the domain of the expression theorems for c and e, distinct integer primary keys (count(p));
+   known bad ([aggr_safe]): sum of a boolean expression (finding sum-of-booleans-is-returned-as-bool; PostgreSQL has no
+   sum / avg of a boolean at all: C02). *)
+Theorem C01_aggregate_except_known : forall d, modelled d = true ->
+  forall table filt g conds qa,
+  filt_typed filt = true -> tr_where d filt = Some conds -> tr_aggr d 0%nat g = Some qa ->
+  aggr_safe d g = true ->
+  keys_ok (map (fun en => attr_val en 0%nat) table) = true ->
+  Forall (arow_ok d filt g) table ->
+  sql_aggr d qa conds table = enca d (py_aggr g filt table) /\
+  deca_g g (sql_aggr d qa conds table) = py_aggr g filt table.
+Proof. exact aggr_sound. Qed.
+Print Assumptions C01_aggregate_except_known.
+
+(* non-vacuity: sum / sum(distinct) / avg / min / count over a table with a None, and sum / min over no rows *)
+Example C01_aggregate_nonvacuous :
+  let a := mkattr 1 TInt true in
+  let row (id : Z) (av : pyv) := mkenv (fun i => match i with 0%nat => PInt id | 1%nat => av | _ => PNone end) (fun _ => PNone) in
+  let table := [row 1 (PInt 2); row 2 PNone; row 3 (PInt 2); row 4 (PInt 5)] in
+  let big := Some (ECmp CGt (EAttr a) (EInt 100)) in
+  forallb (fun g => match tr_aggr DSqlite 0%nat g with Some qa => qv_eqb (sql_aggr DSqlite qa [] table) (enca DSqlite (py_aggr g None table)) | None => false end)
+          [GAgg FSum false (EAttr a); GAgg FSum true (EAttr a); GAgg FAvg false (EAttr a); GAgg FMin false (EAttr a); GAgg FCount true (EAttr a); GCountObj; GCountRows] = true /\
+  py_aggr (GAgg FSum false (EAttr a)) None table = AVal (PInt 9) /\ py_aggr (GAgg FSum true (EAttr a)) None table = AVal (PInt 7) /\
+  py_aggr (GAgg FAvg false (EAttr a)) None table = AFrac 9 3 /\ py_aggr (GAgg FCount true (EAttr a)) None table = AVal (PInt 2) /\
+  py_aggr (GAgg FSum false (EAttr a)) big table = AVal (PInt 0) /\ py_aggr (GAgg FMin false (EAttr a)) big table = AVal PNone /\
+  match tr_where DSqlite big, tr_aggr DSqlite 0%nat (GAgg FSum false (EAttr a)) with
+  | Some c, Some qa => sql_aggr DSqlite qa c table = IntV 0
+  | _, _ => False
+  end.
 Proof. vm_compute. repeat split; reflexivity. Qed.
 
 (* non-vacuity: a nested filter with a None attribute, a negative parameter and a floor division satisfies every
